@@ -11,7 +11,7 @@ package sign
 //@ axiom forall(d, any, (typeis(d, messageHash) && d.(messageHash) != nil) ==> wnofail(d))
 //@ func (Signature).Verify
 //@   nopanic[C05]
-//@   requires public != nil && sig.R != nil && sig.z != nil && m != nil && typeis(public, *curve.Secp256k1Point) && typeis(sig.R, *curve.Secp256k1Point)
+//@   requires public != nil && sig.R != nil && sig.z != nil && m != nil
 //@   modifies nothing
 //@   allocates
 //@   ensures[C01,C16] result == schnorr_valid(sig.R, sig.z, public, m)
@@ -19,6 +19,8 @@ package sign
 // Output gate (C01): the session's result is produced only for a signature its verifier accepts for exactly this
 // session's group key and message.
 //@ func (*round3).Finalize
+//@   nopanic[C05]
+//@   requires s3ok(r) && r.M != nil && forall(j, party.ID, indom(r.z, j) ==> r.z[j] != nil)
 //@   assert_at[C01] ResultRound "return r.ResultRound(sig)": typeis(arg1, taproot.Signature) ==> (r.taproot && bip340_ok(taprootPub, arg1.(taproot.Signature), r.M) && bval(taprootPub) == xbytes(ptval(r.Y)))
 //@   assert_at[C01] ResultRound "return r.ResultRound(sig)": typeis(arg1, Signature) ==> (!r.taproot && schnorr_valid(arg1.(Signature).R, arg1.(Signature).z, r.Y, r.M))
 //@   assert_at[C01] ResultRound "return r.ResultRound(sig)": typeis(arg1, taproot.Signature) || typeis(arg1, Signature)
@@ -41,7 +43,8 @@ package sign
 //@ spec fn scu_from(Int) Int
 //@ spec fn hadvu(Int) Int
 //@ func (*round1).Finalize
-//@   requires r != nil && r.Helper != nil && r.s_i != nil
+//@   nopanic[C05]
+//@   requires s1ok(r) && out != nil && !closed(out) && r.Helper.hash != nil && r.Helper.hash.h != nil && !held(r.Helper.mtx)
 //@   let key = keyed(kdf(deriveHashKeyContext, benc(iface(r.s_i))))
 //@   let S = kdigest(key, wcat(wcat(wcat(wempty(), lastbytes(Sum)), bval(r.M)), bval(a)))
 //@   assert_at[C11] ScalarUnit "d_i := sample.ScalarUnit(nonceDigest, r.Group())": hstate(arg0) == S
@@ -81,5 +84,13 @@ package sign
 // and that the challenge is the verifier's schnorr_chal(R, Y, M) were attempted as assert_at obligations and are NOT
 // claimed: the solvers return unknown on them within the budget -- see DESIGN.md 10.8.)
 //@ func (*round2).Finalize
-//@   requires s2ok(r)
+//@   nopanic[C05]
+//@   requires s2ok(r) && out != nil && !closed(out) && r.M != nil
+// (the handler finalizes a round only after every party's broadcast was stored: C07)
+//@   requires forall(j, party.ID, inslice(r.Helper.partyIDs, j) ==> (r.D[j] != nil && r.E[j] != nil))
+//@   requires inslice(r.Helper.partyIDs, r.Helper.info.SelfID)
+//@   loop 1: invariant rhoPreHash != nil && rhoPreHash.h != nil && rho != nil
+//@   loop 2: invariant rhoPreHash != nil && rhoPreHash.h != nil && rho != nil && each(r.Helper.partyIDs[:rangeindex+1], j, rho[j] != nil)
+//@   loop 3: invariant rho != nil && RShares != nil && R != nil && forall(j, party.ID, inslice(r.Helper.partyIDs, j) ==> rho[j] != nil) && each(r.Helper.partyIDs[:rangeindex+1], j, RShares[j] != nil)
+//@   loop 4: invariant RShares != nil && forall(j, party.ID, inslice(r.Helper.partyIDs, j) ==> RShares[j] != nil)
 //@   assert_at[C01] BroadcastMessage "err := r.BroadcastMessage(out, &broadcast3{Z_i: z_i})": typeis(arg2, *broadcast3) && arg2.(*broadcast3).Z_i == z_i
